@@ -147,14 +147,13 @@ Proof.
     destruct (setbit_state (bo_out s) (bo_ct s - 1) Hout Hk) as [Hd [Hm Hb]].
     destruct (bit =? 0).
     + split.
-      * unfold Inv, hi, lo in *. cbn [bo_ct bo_out]. repeat split; try lia.
-        intros H. apply Hff in H. lia.
+      * unfold Inv, hi, lo in *. cbn [bo_ct bo_out]. repeat split; try lia;
+          match goal with H : _ = 255 |- _ => apply Hff in H; lia end.
       * left. split; reflexivity.
     + split.
-      * unfold Inv, hi, lo in *. cbn [bo_ct bo_out]. rewrite Hd, Hm. repeat split; try lia.
-        -- intros H. apply Hff in H. lia.
-        -- intros H. apply Hff in H. destruct H as [H7 Hl].
-           apply lor_small; [split; [apply Z.mod_pos_bound; lia | exact Hl] | lia].
+      * unfold Inv, hi, lo in *. cbn [bo_ct bo_out]. rewrite Hd, Hm. repeat split; try lia;
+          match goal with H : _ = 255 |- _ => apply Hff in H; destruct H as [H7 Hl] end;
+          first [lia | apply lor_small; [split; [apply Z.mod_pos_bound; lia | exact Hl] | lia]].
       * left. split; [reflexivity|]. unfold hi. cbn [bo_out]. exact Hd.
 Qed.
 
